@@ -70,6 +70,11 @@ fn exe() -> std::path::PathBuf {
 static PROGRESS: AtomicU64 = AtomicU64::new(u64::MAX);
 static PROGRESS_TICK: AtomicU64 = AtomicU64::new(0);
 
+/// Liveness tick for long single runs (keeps the hang watchdog quiet while progress is real).
+pub fn tick() {
+    PROGRESS_TICK.fetch_add(1, Ordering::Relaxed);
+}
+
 pub fn worker(job_json: &str) -> i32 {
     let spec: JobSpec = match serde_json::from_str(job_json) {
         Ok(s) => s,
@@ -232,6 +237,8 @@ fn plan(prop: &str, tier: &str) -> Vec<ClassPlan> {
         "C07" => vec![
             ClassPlan { class: "small", total: n(1_200_000, 40_000_000) },
             ClassPlan { class: "big", total: n(1_600, 60_000) },
+            // periodic streams beyond 4 GiB (absolute-offset truncation); thorough only
+            ClassPlan { class: "huge", total: if thorough { 4 } else { 0 } },
         ],
         "C08" => vec![
             ClassPlan { class: "small", total: n(800_000, 30_000_000) },
@@ -626,11 +633,11 @@ pub fn run(prop: &str, tier: &str) -> i32 {
         } else {
             raw_path.clone()
         };
-        let (code, class) = replay_fresh(&use_path, Duration::from_secs(120));
+        let (code, class) = replay_fresh(&use_path, Duration::from_secs(900));
         let (final_path, ok) = if code == Some(1) && class == f.class {
             (use_path.clone(), true)
         } else if use_path != raw_path {
-            let (c2, cl2) = replay_fresh(&raw_path, Duration::from_secs(120));
+            let (c2, cl2) = replay_fresh(&raw_path, Duration::from_secs(900));
             (raw_path.clone(), c2 == Some(1) && cl2 == f.class)
         } else {
             (raw_path.clone(), false)
@@ -818,6 +825,8 @@ fn evidence(
             "scenarios": agg.scenarios,
             "distinct_nontrivial": distinct_nontrivial,
             "distinct_scenario_signatures": distinct_signatures,
+            "distinct_interleavings": if prop == "C17" { serde_json::json!(distinct_signatures) } else { serde_json::json!("n/a (single-threaded engine; schedules are read/write/fault schedules, counted in distinct_scenario_signatures)") },
+            "distinct_measure": if prop == "C17" { "hash over every context switch (from-thread, site, to-thread) xor scenario hash" } else { "hash of (patterns, stream, capacity, read schedule, write schedule, options, op) [+ fault list for C18's distinct_nontrivial]" },
             "rule": rule,
             "samples": agg.samples,
             "exhaustive": false,
@@ -861,6 +870,26 @@ pub fn replay(path: &str, verbose: bool) -> i32 {
         }
     };
     match rf.engine.as_str() {
+        "stream" if rf.scenario.get("huge").is_some() => {
+            let h = &rf.scenario["huge"];
+            let (v, matches, bytes) = streamdrv::huge_run(
+                h["seed"].as_u64().unwrap_or(0),
+                h["idx"].as_u64().unwrap_or(0),
+                h["reps"].as_u64().unwrap_or(1),
+            );
+            println!("  huge stream: {} matches, {} bytes delivered", matches, bytes);
+            match v {
+                Some(x) => {
+                    println!("REPLAY class={} property={} detail: {}", x.class, rf.property, x.detail);
+                    println!("VIOLATION property={} replay={}", rf.property, path);
+                    1
+                }
+                None => {
+                    println!("REPLAY held property={}", rf.property);
+                    0
+                }
+            }
+        }
         "stream" => {
             let sc: StreamScenario = match serde_json::from_value(rf.scenario.clone()) {
                 Ok(s) => s,
@@ -913,6 +942,11 @@ pub fn minimise(inp: &str, outp: &str) -> i32 {
         Err(_) => return 2,
     };
     match rf.engine.as_str() {
+        "stream" if rf.scenario.get("huge").is_some() => {
+            // nothing to shrink structurally: (seed, index, repetitions) is the scenario
+            rf.note = "huge periodic stream; not minimised".into();
+            std::fs::write(outp, serde_json::to_string_pretty(&rf).unwrap()).is_ok().then_some(0).unwrap_or(2)
+        }
         "stream" => {
             let sc: StreamScenario = match serde_json::from_value(rf.scenario.clone()) {
                 Ok(s) => s,
